@@ -58,8 +58,11 @@ MODELLED = [
     "ThetaForecaster overrides update (does not refit): only its memory / cutoff / update_predict "
     "clauses are checked; pipelines and stacking do not refit their transformers / meta-regressor "
     "on update, so the refit-equals-fresh-fit clause is not applied to them",
-    "_format_moving_cutoff_predictions is modelled as the cutoff-labelled list of forecasts (the "
-    "DataFrame / Series layout is canonicalised by the driver)",
+    "the layout of what update_predict returns (concatenated Series for single-step horizons, "
+    "DataFrame with one column per cutoff, or that column alone) is modelled as the cutoff-labelled "
+    "list of forecasts (canonicalised by the driver); the formatting code is followed wherever it "
+    "lives (helper or inline); a concatenated single-step result, which carries no labels in pandas, "
+    "is labelled by the list appended in lock step with the forecasts in the same loop",
     "_update_X (`if X is len(X) > 0`, dead unless reached from the Prophet adapter, which is not "
     "importable here) and exogenous data X are out of scope (static note only)",
     "consecutive integer time index, relative horizons, no NaN; update_predict on data that overlap "
